@@ -18,7 +18,7 @@ META = {
               "[-300, 300] (quick [-70, 70]), [2^16-16, 2^16+16], [2^18-4, 2^18+4] (oct() is realised by CrossHair); label distances 0..2 (thorough 0..3); base 0..2 and 510..513",
     "outside": ["values outside the rendering windows", "more than 4 symbols per file"],
     "structure": "constants and labels, one and two files, local labels (must not be listed), output selectors -o *.bin / -o raw / --implicit-bin / "
-                 "make_bin / none",
+                 "make_bin / none; paths and source names with further dots; symbol names with dots; three linked files",
     "stubs": ["CLI path obligations use the recording stubs of pdpverif/cli_harness.py"],
 }
 
